@@ -464,7 +464,7 @@ package tabular
 //@   requires [callbacks-live] forall i int :: {set.renderTime[i]} 0 <= i && i < len(set.renderTime) ==> set.renderTime[i] != nil
 //@   requires [callbacks-live] forall i int :: {set.preCellRenderTime[i]} 0 <= i && i < len(set.preCellRenderTime) ==> set.preCellRenderTime[i] != nil
 //@   requires [callbacks-live] forall i int :: {set.postCellRenderTime[i]} 0 <= i && i < len(set.postCellRenderTime) ==> set.postCellRenderTime[i] != nil
-//@   assigns loc(propertyImpl.properties, propsCell(owner)), new(valueProperty), ghost cbErrN, ghost cbErrLog, when dyn(errTaker) == type[*Row]: loc(Row.ErrorContainer, fldloc(errTaker.(*Row), 0)), new(ErrorContainer), when ecOf(errTaker, heap[Row.ErrorContainer]) != nil: ecOf(errTaker, heap[Row.ErrorContainer]).errors_, when ecOf(errTaker, heap[Row.ErrorContainer]) != nil: elemscap(ecOf(errTaker, heap[Row.ErrorContainer]).errors_)
+//@   assigns loc(propertyImpl.properties, propsCell(owner)), new(valueProperty), ghost cbErrN, ghost cbErrLog, ghost cbCallN, ghost cbCallSelf, ghost cbCallOwner, when dyn(errTaker) == type[*Row]: loc(Row.ErrorContainer, fldloc(errTaker.(*Row), 0)), new(ErrorContainer), when ecOf(errTaker, heap[Row.ErrorContainer]) != nil: ecOf(errTaker, heap[Row.ErrorContainer]).errors_, when ecOf(errTaker, heap[Row.ErrorContainer]) != nil: elemscap(ecOf(errTaker, heap[Row.ErrorContainer]).errors_)
 //@   ensures [owner-props-ok] ownerOK(owner)
 //@   ensures [other-chains-untouched] chainsStable(old(heap[valueProperty.chain]), old(heap[valueProperty.key]), old(heap[valueProperty.val]), heap[valueProperty.chain], heap[valueProperty.key], heap[valueProperty.val], old(alloc))
 //@   ensures [receiver] recvOK(errTaker) && (cbErrN > old(cbErrN) || old(ecOf(errTaker, heap[Row.ErrorContainer])) != nil ==> ecOf(errTaker, heap[Row.ErrorContainer]) != nil) && (old(ecOf(errTaker, heap[Row.ErrorContainer])) != nil ==> ecOf(errTaker, heap[Row.ErrorContainer]) == old(ecOf(errTaker, heap[Row.ErrorContainer])))
@@ -499,7 +499,7 @@ package tabular
 //@   requires [row-shape] r.inTable == nil ==> (r.isSeparator ==> r.cells == nil) && (r.cells != nil ==> WFrow(r))
 //@   requires [row-attached] r.inTable != nil ==> attached(r)
 //@   requires [cell-ok] chainOK(heap[valueProperty.chain], heap[valueProperty.key], heap[valueProperty.val], c.properties) && cbsLive(c.callbacks) && !c.mustCalc
-//@   assigns when r.cells != nil: r.cells, when r.cells != nil: elemscap(r.cells), r.ErrorContainer, new(ErrorContainer), when r.ErrorContainer != nil: r.ErrorContainer.errors_, when r.ErrorContainer != nil: elemscap(r.ErrorContainer.errors_), when r.inTable != nil: r.inTable.columns, when r.inTable != nil: r.inTable.nColumns, when r.inTable != nil: elemscap(r.inTable.columns), new(column), new(valueProperty), ghost cbErrN, ghost cbErrLog
+//@   assigns when r.cells != nil: r.cells, when r.cells != nil: elemscap(r.cells), r.ErrorContainer, new(ErrorContainer), when r.ErrorContainer != nil: r.ErrorContainer.errors_, when r.ErrorContainer != nil: elemscap(r.ErrorContainer.errors_), when r.inTable != nil: r.inTable.columns, when r.inTable != nil: r.inTable.nColumns, when r.inTable != nil: elemscap(r.inTable.columns), new(column), new(valueProperty), ghost cbErrN, ghost cbErrLog, ghost cbCallN, ghost cbCallSelf, ghost cbCallOwner
 //@   ensures [returns-row] result == r
 //@   ensures [error-container] (old(r.ErrorContainer) != nil ==> r.ErrorContainer == old(r.ErrorContainer)) && (old(r.ErrorContainer) == nil && r.ErrorContainer != nil ==> fresh(r.ErrorContainer) && fresh(r.ErrorContainer.errors_)) && rowOwn(r) @C11
 //@   ensures [errors-array] old(r.ErrorContainer) != nil ==> (r.ErrorContainer.errors_.arr == old(r.ErrorContainer.errors_.arr) && r.ErrorContainer.errors_.off == old(r.ErrorContainer.errors_.off) && r.ErrorContainer.errors_.cap == old(r.ErrorContainer.errors_.cap)) || fresh(r.ErrorContainer.errors_)
@@ -549,7 +549,7 @@ package tabular
 //@   requires [row] WFrow(row) && rowProps(row) && cellsOwn(row) && len(row.cells) <= 1099511627774
 //@   requires [row-cells-not-shared] (forall i int :: {t.rows[i]} 0 <= i && i < len(t.rows) ==> t.rows[i].cells.arr != row.cells.arr) && (t.headerRow != nil ==> t.headerRow.cells.arr != row.cells.arr && t.headerRow != row)
 //@   requires [row-errors-separate] row.ErrorContainer != t.ErrorContainer && (row.ErrorContainer != nil ==> len(row.ErrorContainer.errors_) == 0 || row.ErrorContainer.errors_.arr != t.ErrorContainer.errors_.arr)
-//@   assigns t.rows, elemscap(t.rows), row.inTable, row.rowNum, row.ErrorContainer, t.columns, t.nColumns, elemscap(t.columns), new(column), t.ErrorContainer.errors_, elemscap(t.ErrorContainer.errors_), row.properties, elems(row.cells).properties, new(valueProperty), ghost cbErrN, ghost cbErrLog
+//@   assigns t.rows, elemscap(t.rows), row.inTable, row.rowNum, row.ErrorContainer, t.columns, t.nColumns, elemscap(t.columns), new(column), t.ErrorContainer.errors_, elemscap(t.ErrorContainer.errors_), row.properties, elems(row.cells).properties, new(valueProperty), ghost cbErrN, ghost cbErrLog, ghost cbCallN, ghost cbCallSelf, ghost cbCallOwner
 //@   ensures [invariant] WF(t) @C02,C09
 //@   ensures [appended] len(t.rows) == old(len(t.rows)) + 1 && t.rows[len(t.rows)-1] == row && row.rowNum == len(t.rows) && row.inTable == t @C02
 //@   ensures [earlier-rows-kept] forall i int :: {t.rows[i]} {old(t.rows[i])} 0 <= i && i < old(len(t.rows)) ==> t.rows[i] == old(t.rows[i]) @C02
@@ -581,7 +581,7 @@ package tabular
 //@ func (*ATable).AppendNewRow
 //@   tags C02,C09
 //@   requires [table] WF(t) && tblProps(t) && colsOwn(t) && len(t.rows) <= 1099511627774
-//@   assigns t.rows, elemscap(t.rows), new(Row), t.columns, t.nColumns, elemscap(t.columns), new(column), t.ErrorContainer.errors_, elemscap(t.ErrorContainer.errors_), new(valueProperty), ghost cbErrN, ghost cbErrLog
+//@   assigns t.rows, elemscap(t.rows), new(Row), t.columns, t.nColumns, elemscap(t.columns), new(column), t.ErrorContainer.errors_, elemscap(t.ErrorContainer.errors_), new(valueProperty), ghost cbErrN, ghost cbErrLog, ghost cbCallN, ghost cbCallSelf, ghost cbCallOwner
 //@   ensures [invariant] WF(t) && tblProps(t) && colsOwn(t)
 //@   ensures [appended] len(t.rows) == old(len(t.rows)) + 1 && t.rows[len(t.rows)-1] == result && fresh(result) && len(result.cells) == 0 && !result.isSeparator && result.rowNum == len(t.rows) && result.inTable == t @C02
 //@   ensures [earlier-rows-kept] forall i int :: {t.rows[i]} {old(t.rows[i])} 0 <= i && i < old(len(t.rows)) ==> t.rows[i] == old(t.rows[i]) @C02
@@ -592,7 +592,7 @@ package tabular
 //@   tags C02,C09
 //@   requires [table] WF(t) && tblProps(t) && colsOwn(t) && len(t.rows) <= 1099511627774 && len(items) <= 1099511627774
 //@   requires [nested-cells-ok] forall i int :: {items[i]} 0 <= i && i < len(items) ==> (dyn(items[i]) == type[Cell] ==> cellValOK(items[i].(Cell)))
-//@   assigns t.rows, elemscap(t.rows), new(Row), t.columns, t.nColumns, elemscap(t.columns), new(column), t.ErrorContainer.errors_, elemscap(t.ErrorContainer.errors_), new(valueProperty), new(ErrorContainer), ghost cbErrN, ghost cbErrLog
+//@   assigns t.rows, elemscap(t.rows), new(Row), t.columns, t.nColumns, elemscap(t.columns), new(column), t.ErrorContainer.errors_, elemscap(t.ErrorContainer.errors_), new(valueProperty), new(ErrorContainer), ghost cbErrN, ghost cbErrLog, ghost cbCallN, ghost cbCallSelf, ghost cbCallOwner
 //@   ensures [invariant] WF(t) && tblProps(t) && colsOwn(t)
 //@   ensures [appended] len(t.rows) == old(len(t.rows)) + 1 && fresh(t.rows[len(t.rows)-1]) && !t.rows[len(t.rows)-1].isSeparator && len(t.rows[len(t.rows)-1].cells) == len(items) @C02
 //@   ensures [items-in-order] forall k int :: {items[k]} 0 <= k && k < len(items) ==> t.rows[len(t.rows)-1].cells[k].raw === items[k] @C02
@@ -618,7 +618,7 @@ package tabular
 //@   tags C02,C11,C13,C09
 //@   requires [table] WF(t) && tblProps(t) && colsOwn(t) && len(items) <= 1099511627774
 //@   requires [nested-cells-ok] forall i int :: {items[i]} 0 <= i && i < len(items) ==> (dyn(items[i]) == type[Cell] ==> cellValOK(items[i].(Cell)))
-//@   assigns t.headerRow, new(Row), t.columns, t.nColumns, elemscap(t.columns), new(column), t.ErrorContainer.errors_, elemscap(t.ErrorContainer.errors_), new(valueProperty), ghost cbErrN, ghost cbErrLog
+//@   assigns t.headerRow, new(Row), t.columns, t.nColumns, elemscap(t.columns), new(column), t.ErrorContainer.errors_, elemscap(t.ErrorContainer.errors_), new(valueProperty), ghost cbErrN, ghost cbErrLog, ghost cbCallN, ghost cbCallSelf, ghost cbCallOwner
 //@   ensures [invariant] WF(t) && tblProps(t) && colsOwn(t)
 //@   ensures [header-set] t.headerRow != nil && fresh(t.headerRow) && len(t.headerRow.cells) == len(items) @C02
 //@   ensures [items-in-order] forall k int :: {items[k]} 0 <= k && k < len(items) ==> t.headerRow.cells[k].raw === items[k] @C02
@@ -688,7 +688,7 @@ package tabular
 //@   requires [row] row != nil && (row.cells != nil ==> cellsOK(row)) && cellsOwn(row) && rowProps(row) && (row.inTable != nil ==> row.inTable == t)
 //@   requires [table] t != nil && tblOwn(t) && tblProps(t) && colsOK(t) && colsOwn(t)
 //@   requires [errors-go-to-table] dyn(ec) == type[*ErrorContainer] && ec.(*ErrorContainer) == t.ErrorContainer && row.ErrorContainer == t.ErrorContainer
-//@   assigns row.properties, elems(row.cells).properties, new(valueProperty), t.ErrorContainer.errors_, elemscap(t.ErrorContainer.errors_), ghost cbErrN, ghost cbErrLog, ghost stage, ghost fires, ghost stageR, ghost firesR
+//@   assigns row.properties, elems(row.cells).properties, new(valueProperty), t.ErrorContainer.errors_, elemscap(t.ErrorContainer.errors_), ghost cbErrN, ghost cbErrLog, ghost cbCallN, ghost cbCallSelf, ghost cbCallOwner, ghost stage, ghost fires, ghost stageR, ghost firesR
 //@   ensures [errors-none-lost-none-duplicated] cbErrN >= old(cbErrN) && len(t.ErrorContainer.errors_) == old(len(t.ErrorContainer.errors_)) + (cbErrN - old(cbErrN)) @C11
 //@   ensures [earlier-errors-kept] forall i int :: {old(t.ErrorContainer.errors_[i])} 0 <= i && i < old(len(t.ErrorContainer.errors_)) ==> t.ErrorContainer.errors_[i] == old(t.ErrorContainer.errors_[i]) @C11
 //@   ensures [callback-errors-in-order] forall m int :: {cbErrLog[m]} old(cbErrN) <= m && m < cbErrN ==> t.ErrorContainer.errors_[old(len(t.ErrorContainer.errors_)) + (m - old(cbErrN))] == cbErrLog[m] @C11
@@ -757,7 +757,7 @@ package tabular
 //@ func (*ATable).InvokeRenderCallbacks
 //@   tags C13,C11,C14,C09
 //@   requires [table] WF(t) && propsOK(t)
-//@   assigns heap[propertyImpl.properties], new(valueProperty), t.ErrorContainer.errors_, elemscap(t.ErrorContainer.errors_), ghost cbErrN, ghost cbErrLog, ghost stage, ghost fires, ghost stageR, ghost firesR, ghost stageT, ghost stageC
+//@   assigns heap[propertyImpl.properties], new(valueProperty), t.ErrorContainer.errors_, elemscap(t.ErrorContainer.errors_), ghost cbErrN, ghost cbErrLog, ghost cbCallN, ghost cbCallSelf, ghost cbCallOwner, ghost stage, ghost fires, ghost stageR, ghost firesR, ghost stageT, ghost stageC
 //@   ensures [invariant] WF(t) && propsOK(t) @C09,C14
 //@   ensures [errors-none-lost-none-duplicated] cbErrN >= old(cbErrN) && len(t.ErrorContainer.errors_) == old(len(t.ErrorContainer.errors_)) + (cbErrN - old(cbErrN)) @C11
 //@   ensures [earlier-errors-kept] forall i int :: {old(t.ErrorContainer.errors_[i])} 0 <= i && i < old(len(t.ErrorContainer.errors_)) ==> t.ErrorContainer.errors_[i] == old(t.ErrorContainer.errors_[i]) @C11
